@@ -449,6 +449,12 @@ class Interp:
                      "std::vec::Vec::<T, A>::as_slice", "std::ops::Deref::deref"):
                 recv = self.force(recv)
                 return recv
+            if p in ("std::option::Option::<T>::is_some", "std::option::Option::<T>::is_none"):
+                # decided by which variant the (possibly still symbolic) option is - the same decision a `match` on it takes
+                ov = self.force(recv)
+                if isinstance(ov, Adt) and ov.ty == OPTION:
+                    return Const((ov.variant == "Some") == p.endswith("is_some"))
+                raise Shape(f"{name} of {ov!r}")
             if p in ("std::vec::Vec::<T, A>::len", "std::slice::<impl [T]>::len"):
                 return Sym(("len",), "usize")
             if p == "std::vec::Vec::<T, A>::push":
@@ -526,7 +532,15 @@ class Interp:
                 return self.ev(n[3], env)
             # a condition on symbolic values (`if name.eq_ignore_ascii_case("Patch")`): both outcomes are explored; the round trip must be the
             # identity under either, so the condition itself need not be evaluated (its subexpressions have no effects in conversion code)
-            taken = self.decide(("if", n[1][1] if isinstance(n[1], list) and len(n[1]) > 1 and isinstance(n[1][1], str) else H.short(n[1], maxlen=60)), [True, False])
+            taken = None
+            try:
+                cv = self.ev(c, env)
+                if isinstance(cv, Const) and isinstance(cv.val, bool):
+                    taken = cv.val  # decided by what is already known (`x.is_some()` of an option whose variant is fixed)
+            except Shape:
+                taken = None
+            if taken is None:
+                taken = self.decide(("if", n[1][1] if isinstance(n[1], list) and len(n[1]) > 1 and isinstance(n[1][1], str) else H.short(n[1], maxlen=60)), [True, False])
             if taken:
                 return self.ev(n[2], env)
             if n[3] is None:
